@@ -3,8 +3,24 @@
 import hashlib, io, json, sys, warnings
 
 
+def _keeper(w, src, dname):
+    from amaranth.hdl import Module, Signal, ClockDomain, Elaboratable
+
+    class Keeper(Elaboratable):
+        def __init__(self):
+            self.cd = ClockDomain(dname)
+            self.z = Signal(w, name="kz")
+
+        def elaborate(self, platform):
+            m = Module()
+            m.domains += self.cd
+            m.d[dname] += self.z.eq(self.z + src)
+            return m
+    return Keeper()
+
+
 def build_design(desc):
-    from amaranth.hdl import Module, Signal, ClockSignal, ResetSignal, Instance, Const
+    from amaranth.hdl import Module, Signal, ClockSignal, ResetSignal, Instance, Const, DomainRenamer
     from amaranth.lib.memory import Memory
     from vlib.gen_prog import build_program
     top = Module()
@@ -38,6 +54,12 @@ def build_design(desc):
             m.d.comb += [wp.addr.eq(x), wp.data.eq(y), wp.en.eq(1), rp.addr.eq(y)]
             ports.append(rp.data)
         ports.append(y)
+        if sub.get("keeper"):
+            # a component that keeps its ClockDomain object between elaborations and defines it in its module,
+            # wrapped in a DomainRenamer (the renamer renames the kept object)
+            k = _keeper(sub["w"], x, sub["keeper"]["defines"])
+            m.submodules.keeper = DomainRenamer(dict(sub["keeper"]["map"]))(k)
+            ports += [k.z, k.cd.clk, k.cd.rst]
         if sub["anon"] or sub["name"] in used_names:
             top.submodules += m
         else:
